@@ -249,6 +249,9 @@ func (v *Verifier) addOb(name, kind, clause string, st *State, goal *Term, cover
 				cands[i] = Subst(c, m)
 			}
 		}
+		if kind == "inv" || kind == "post" {
+			goal = splitLastExists(goal)
+		}
 		goal = underFacts(st.pc, goal)
 		if goal.IsTrue() {
 			ob.NTriv++
@@ -1848,3 +1851,53 @@ func knownFacts(pc []*Term) map[*Term]*Term {
 	return known
 }
 
+
+// splitLastExists rewrites  exists j. (j < x+1 and R(j))  into  (exists j. (j < x and R(j))) or R(x)  throughout t:
+// an equivalence, which lets "some element up to and including the new one" be matched against what a loop
+// invariant says about the elements before it.
+func splitLastExists(t *Term) *Term {
+	memo := map[*Term]*Term{}
+	var rec func(*Term) *Term
+	rec = func(t *Term) *Term {
+		if len(t.Args) == 0 {
+			return t
+		}
+		if r, ok := memo[t]; ok {
+			return r
+		}
+		args := make([]*Term, len(t.Args))
+		ch := false
+		for i, a := range t.Args {
+			args[i] = rec(a)
+			if args[i] != a {
+				ch = true
+			}
+		}
+		r := t
+		if ch {
+			r = rebuild(t, args)
+		}
+		if r.Op == "exists" && len(r.Bound) == 1 && r.Args[0].Op == "and" {
+			j := r.Bound[0]
+			for i, c := range r.Args[0].Args {
+				if c.Op == "<" && c.Args[0] == j && !mentions(c.Args[1], j) {
+					if x, ok := minusOne(c.Args[1]); ok {
+						var rest []*Term
+						for k, d := range r.Args[0].Args {
+							if k != i {
+								rest = append(rest, d)
+							}
+						}
+						before := Exists([]*Term{j}, And(append([]*Term{Lt(j, x)}, rest...)...))
+						at := Subst(And(rest...), map[*Term]*Term{j: x})
+						r = Or(before, at)
+						break
+					}
+				}
+			}
+		}
+		memo[t] = r
+		return r
+	}
+	return rec(t)
+}
